@@ -367,3 +367,349 @@ Proof.
         try reflexivity;
         rewrite (Hmk x3) by (cbn; auto); f_equal; f_equal; lia.
 Qed.
+
+(* ------------------------------------------------------------------ *)
+(* the merged tile                                                      *)
+
+Lemma merge_pixel_gen u f k c0 c1 c2 c3 out :
+  0 < k -> dims_ok [c0; c1; c2; c3] ->
+  merge_tiles_gen u f k [c0; c1; c2; c3] = Some (Some out) ->
+  exists ch0,
+    first_present [c0; c1; c2; c3] = Some ch0 /\
+    ih out = k /\ iw out = k /\ imode out = maskable (imode ch0) /\
+    (forall ch, In (Some ch) [c0; c1; c2; c3] ->
+                ih ch = k /\ iw ch = k /\ maskable (imode ch) = maskable (imode ch0)) /\
+    forall i j, 0 <= i < k -> 0 <= j < k ->
+                disp (bottom_up f) out i j =
+                block_avg (mosaic_of (mosaic_val_gen u) (bottom_up f) k (imode ch0) [c0; c1; c2; c3]) i j.
+Proof.
+  intros Hk Hd. unfold merge_tiles_gen.
+  destruct (first_present [c0; c1; c2; c3]) as [ch0|] eqn:EF; [|discriminate].
+  fold (b_init (imode ch0) k).
+  destruct (update_all u (b_init (imode ch0) k) (combine (slices_for f k) [c0; c1; c2; c3])) as [bf|] eqn:EU;
+    [|discriminate].
+  intros H; injection H as <-.
+  destruct (merge_buffer u f k c0 c1 c2 c3 (imode ch0) bf Hk Hd EU) as (X1 & X2 & X3 & Hm & X5).
+  exists ch0. split; [reflexivity|].
+  assert (Eh : ih bf / 2 = k) by (rewrite X1, Z.mul_comm; apply Z.div_mul; lia).
+  assert (Ew : iw bf / 2 = k) by (rewrite X2, Z.mul_comm; apply Z.div_mul; lia).
+  cbn [averaging_merger ih iw imode].
+  split; [exact Eh|]. split; [exact Ew|]. split; [exact X3|]. split; [exact Hm|].
+  intros i j Hi Hj. unfold disp, block_avg. cbn [averaging_merger ih ipx]. rewrite Eh.
+  destruct (bottom_up f).
+  - rewrite !X5 by lia.
+    replace (2 * k - 1 - 2 * (k - 1 - i)) with (2 * i + 1) by lia.
+    replace (2 * k - 1 - (2 * (k - 1 - i) + 1)) with (2 * i) by lia.
+    apply avg4_swap_rows.
+  - rewrite !X5 by lia. reflexivity.
+Qed.
+
+Lemma nth_some_in {A} (l : list (option A)) n x : nth n l None = Some x -> In (Some x) l.
+Proof.
+  revert n. induction l as [|a l IH]; intros [|n] H; cbn [nth] in H; try discriminate.
+  - left; exact H.
+  - right; eapply IH; eauto.
+Qed.
+
+Lemma mosaic_of_ext v1 v2 bu k m cs r c :
+  (forall ch y x, In (Some ch) cs -> v1 (imode ch) (ipx ch y x) = v2 (imode ch) (ipx ch y x)) ->
+  mosaic_of v1 bu k m cs r c = mosaic_of v2 bu k m cs r c.
+Proof.
+  intros H. unfold mosaic_of.
+  destruct (nth (Z.to_nat (c / k + 2 * (r / k))) cs None) as [ch|] eqn:E; [|reflexivity].
+  apply nth_some_in in E. unfold disp. destruct bu; apply H; exact E.
+Qed.
+
+(* contributions under the code's rule and under the repaired rule *)
+Lemma mosaic_val_coded m s :
+  px_ok m s = true -> (is_int_mode m = true -> nonneg_px s) ->
+  mosaic_val_gen upd_px m s = mosaic_val m s.
+Proof.
+  intros Hok Hn. unfold mosaic_val_gen, mosaic_val.
+  destruct m; cbn [is_int_mode upd_px] in *; try reflexivity;
+    destruct s; try discriminate; cbn [masked_px]; specialize (Hn eq_refl); cbn [nonneg_px] in Hn;
+    f_equal; lia.
+Qed.
+
+Lemma mosaic_val_fixed m s :
+  px_ok m s = true -> mosaic_val_gen upd_px_fixed m s = mosaic_val m s.
+Proof.
+  intros Hok. unfold mosaic_val_gen, mosaic_val.
+  destruct m; cbn [is_int_mode upd_px_fixed upd_px] in *; try reflexivity;
+    destruct s; try discriminate; reflexivity.
+Qed.
+
+Definition children_ok (cs : list (option img)) : Prop :=
+  forall ch, In (Some ch) cs -> img_ok ch /\ 0 <= ih ch /\ 0 <= iw ch.
+
+Lemma children_ok_dims cs : children_ok cs -> dims_ok cs.
+Proof. intros H ch Hin. destruct (H ch Hin) as (_ & A & B). auto. Qed.
+
+Lemma block_avg_ext M1 M2 i j :
+  (forall r c, M1 r c = M2 r c) -> block_avg M1 i j = block_avg M2 i j.
+Proof. intros H. unfold block_avg. rewrite !H. reflexivity. Qed.
+
+Definition merge_pixel_statement (merge : fmt -> Z -> list (option img) -> option (option img))
+           (extra : list (option img) -> Prop) : Prop :=
+  forall f k c0 c1 c2 c3 out,
+    0 < k -> children_ok [c0; c1; c2; c3] -> extra [c0; c1; c2; c3] ->
+    merge f k [c0; c1; c2; c3] = Some (Some out) ->
+    exists ch0,
+      first_present [c0; c1; c2; c3] = Some ch0 /\
+      ih out = k /\ iw out = k /\ imode out = maskable (imode ch0) /\
+      (forall ch, In (Some ch) [c0; c1; c2; c3] ->
+                  ih ch = k /\ iw ch = k /\ maskable (imode ch) = maskable (imode ch0)) /\
+      forall i j, 0 <= i < k -> 0 <= j < k ->
+                  disp (bottom_up f) out i j =
+                  block_avg (mosaic_of mosaic_val (bottom_up f) k (imode ch0) [c0; c1; c2; c3]) i j.
+
+Lemma merge_pixel_lemma : merge_pixel_statement merge_tiles nonneg_children.
+Proof.
+  intros f k c0 c1 c2 c3 out Hk Hok Hnn H.
+  destruct (merge_pixel_gen upd_px f k c0 c1 c2 c3 out Hk (children_ok_dims _ Hok) H)
+    as (ch0 & A & B & C & D & E & F).
+  exists ch0. repeat split; try assumption; try (apply (E ch); assumption).
+  intros i j Hi Hj. rewrite (F i j Hi Hj). apply block_avg_ext. intros r c.
+  apply mosaic_of_ext. intros ch y x Hin. apply mosaic_val_coded.
+  - apply (Hok ch Hin).
+  - intros Hint. apply (Hnn ch Hin Hint).
+Qed.
+
+Lemma merge_pixel_fixed_lemma : merge_pixel_statement merge_tiles_fixed (fun _ => True).
+Proof.
+  intros f k c0 c1 c2 c3 out Hk Hok _ H.
+  destruct (merge_pixel_gen upd_px_fixed f k c0 c1 c2 c3 out Hk (children_ok_dims _ Hok) H)
+    as (ch0 & A & B & C & D & E & F).
+  exists ch0. repeat split; try assumption; try (apply (E ch); assumption).
+  intros i j Hi Hj. rewrite (F i j Hi Hj). apply block_avg_ext. intros r c.
+  apply mosaic_of_ext. intros ch y x Hin. apply mosaic_val_fixed. apply (Hok ch Hin).
+Qed.
+
+(* the faithful model refutes the unrestricted statement: negative integer
+   children are clamped to zero by np.maximum against the cleared buffer *)
+Definition neg_tile : img := mkImg 1 1 I16 (fun _ _ => PxI (-8)).
+Definition neg_children : list (option img) := [Some neg_tile; Some neg_tile; Some neg_tile; Some neg_tile].
+
+Lemma merge_int_refuted_lemma : ~ merge_pixel_statement merge_tiles (fun _ => True).
+Proof.
+  intros H.
+  destruct (H Npy 1 (Some neg_tile) (Some neg_tile) (Some neg_tile) (Some neg_tile)
+              (mkImg 1 1 I16 (fun i j => avg4 (PxI 0) (PxI 0) (PxI 0) (PxI 0))))
+    as (ch0 & A & _ & _ & _ & _ & F).
+  - lia.
+  - intros ch Hin. assert (ch = neg_tile) as -> by (cbn in Hin; intuition congruence).
+    split; [intros r c; reflexivity | cbn; lia].
+  - exact I.
+  - vm_compute. reflexivity.
+  - cbn in A. injection A as <-. specialize (F 0 0 ltac:(lia) ltac:(lia)). vm_compute in F. discriminate.
+Qed.
+
+Lemma merge_tiles_shape u f k cs out :
+  merge_tiles_gen u f k cs = Some (Some out) -> exists c, first_present cs = Some c.
+Proof. unfold merge_tiles_gen. destruct (first_present cs); [eauto|discriminate]. Qed.
+
+Lemma merge_tiles_all_absent u f k cs :
+  (forall c, In c cs -> c = None) -> merge_tiles_gen u f k cs = Some None.
+Proof.
+  intros H. unfold merge_tiles_gen.
+  destruct (first_present cs) as [c|] eqn:E; [|reflexivity].
+  apply first_present_in in E. specialize (H _ E). discriminate.
+Qed.
+
+Lemma merge_tiles_early u f k cs :
+  merge_tiles_gen u f k cs = Some None -> forall c, In c cs -> c = None.
+Proof.
+  unfold merge_tiles_gen. destruct (first_present cs) as [c|] eqn:E.
+  - destruct (update_all u _ _); discriminate.
+  - intros _. apply first_present_none; exact E.
+Qed.
+
+(* averaging rules, as statements about avg4 *)
+Lemma avg4_float x y z w : avg4 (PxF x) (PxF y) (PxF z) (PxF w) = PxF (favg [x; y; z; w]).
+Proof. reflexivity. Qed.
+
+Lemma avg4_float3 x1 x2 x3 y1 y2 y3 z1 z2 z3 w1 w2 w3 :
+  avg4 (PxF3 x1 x2 x3) (PxF3 y1 y2 y3) (PxF3 z1 z2 z3) (PxF3 w1 w2 w3) =
+  PxF3 (favg [x1; y1; z1; w1]) (favg [x2; y2; z2; w2]) (favg [x3; y3; z3; w3]).
+Proof. reflexivity. Qed.
+
+Lemma avg4_int x y z w : avg4 (PxI x) (PxI y) (PxI z) (PxI w) = PxI (Z.quot (x + y + z + w) 4).
+Proof. reflexivity. Qed.
+
+Lemma avg4_rgba x1 x2 x3 x4 y1 y2 y3 y4 z1 z2 z3 z4 w1 w2 w3 w4 :
+  avg4 (PxC x1 x2 x3 x4) (PxC y1 y2 y3 y4) (PxC z1 z2 z3 z4) (PxC w1 w2 w3 w4) =
+  PxC (Z.quot (x1 + y1 + z1 + w1) 4) (Z.quot (x2 + y2 + z2 + w2) 4)
+      (Z.quot (x3 + y3 + z3 + w3) 4) (Z.quot (x4 + y4 + z4 + w4) 4).
+Proof. reflexivity. Qed.
+
+(* ------------------------------------------------------------------ *)
+(* walk_callback on the store                                           *)
+
+Lemma read_none_image orc dflt st c :
+  rres_image orc (read_image dflt st c DNone None None) = option_map (decode orc) (st c dflt).
+Proof.
+  unfold read_image, or_default. destruct (st c dflt) as [[im|h w]|]; reflexivity.
+Qed.
+
+Definition child_files (orc : pos -> Z -> Z -> pixel) (dflt : fmt) (st : store) (p : pos) : list (option img) :=
+  map (fun c => option_map (decode (orc c)) (st c dflt)) (children p).
+
+Lemma walk_callback_effect u dflt k orc st p st' :
+  walk_callback_gen u dflt k orc st p = Some st' ->
+  match merge_tiles_gen u dflt k (child_files orc dflt st p) with
+  | None => False
+  | Some None => st' = st
+  | Some (Some m) =>
+      forall q f, st' q f = if pos_eqb q p && fmt_eqb f dflt
+                            then (if is_completely_masked m then None else encode dflt m)
+                            else st q f
+  end.
+Proof.
+  unfold walk_callback_gen, child_files.
+  assert (E : map (fun c => rres_image (orc c) (read_image dflt st c DNone None None)) (children p)
+              = map (fun c => option_map (decode (orc c)) (st c dflt)) (children p)).
+  { apply map_ext. intros c. apply read_none_image. }
+  rewrite E.
+  destruct (merge_tiles_gen u dflt k _) as [[m|]|]; [| |discriminate].
+  - intros H q f. rewrite (write_image_at _ _ _ _ _ _ H q f). reflexivity.
+  - intros H; injection H as <-. reflexivity.
+Qed.
+
+(* ------------------------------------------------------------------ *)
+(* cascade                                                              *)
+
+Lemma children_depth p c : In c (children p) -> pn c = S (pn p).
+Proof. unfold children. cbn [In]. intros [<-|[<-|[<-|[<-|[]]]]]; reflexivity. Qed.
+
+Lemma pos_eqb_neq a b : a <> b -> pos_eqb a b = false.
+Proof. intros H. destruct (pos_eqb a b) eqn:E; [|reflexivity]. apply pos_eqb_eq in E. contradiction. Qed.
+
+Section Cascade.
+  Variable u : mode -> pixel -> pixel -> pixel.
+  Variable dflt : fmt.
+  Variable k : Z.
+  Variable orc : pos -> Z -> Z -> pixel.
+  Variable start : nat.
+  Variable st0 : store.
+
+  Let leaves : pos -> option fdata := fun p => st0 p dflt.
+  Let pspec : nat -> pos -> option fdata := pyramid_spec u dflt k orc leaves.
+  Let spec (p : pos) : option fdata := pspec (start - pn p) p.
+
+  Hypothesis upper_empty : forall p, (pn p < start)%nat -> st0 p dflt = None.
+
+  Lemma spec_unfold p :
+    (pn p < start)%nat ->
+    spec p = match merge_tiles_gen u dflt k (map (fun c => option_map (decode (orc c)) (spec c)) (children p)) with
+             | Some (Some m) => if is_completely_masked m then None else encode dflt m
+             | _ => None
+             end.
+  Proof.
+    intros Hp. unfold spec, pspec.
+    replace (start - pn p)%nat with (S (start - S (pn p))) by lia.
+    cbn [pyramid_spec].
+    assert (E : map (fun c => option_map (decode (orc c)) (pyramid_spec u dflt k orc leaves (start - S (pn p)) c)) (children p)
+                = map (fun c => option_map (decode (orc c)) (pyramid_spec u dflt k orc leaves (start - pn c) c)) (children p)).
+    { apply map_ext_in. intros c Hc. rewrite (children_depth p c Hc). reflexivity. }
+    rewrite E. reflexivity.
+  Qed.
+
+  Lemma spec_leaf p : pn p = start -> spec p = st0 p dflt.
+  Proof. intros Hp. unfold spec, pspec. rewrite Hp, Nat.sub_diag. reflexivity. Qed.
+
+  Lemma spec_none_children p :
+    (pn p < start)%nat -> (forall c, In c (children p) -> spec c = None) -> spec p = None.
+  Proof.
+    intros Hp H. rewrite (spec_unfold p Hp).
+    rewrite merge_tiles_all_absent; [reflexivity|].
+    intros oc Hin. apply in_map_iff in Hin. destruct Hin as (c & <- & Hc). rewrite (H c Hc). reflexivity.
+  Qed.
+
+  Variable order : list pos.
+  Hypothesis order_depth : forall p, In p order -> (pn p < start)%nat.
+  Hypothesis order_nodup : NoDup order.
+  Hypothesis order_cf : children_first order.
+  Hypothesis order_covers : covers pspec start order.
+
+  Lemma not_in_order_none p : (pn p < start)%nat -> ~ In p order -> spec p = None.
+  Proof.
+    intros Hp Hn. apply spec_none_children; [exact Hp|]. intros c Hc.
+    destruct (spec c) as [d|] eqn:E; [|reflexivity].
+    exfalso. apply Hn. apply order_covers; [exact Hp|].
+    exists c. split; [exact Hc|]. unfold spec in E. rewrite (children_depth p c Hc) in E.
+    rewrite E. discriminate.
+  Qed.
+
+  Definition inv (done : list pos) (st : store) : Prop :=
+    (forall p, (start <= pn p)%nat -> st p dflt = st0 p dflt) /\
+    (forall p, In p done -> st p dflt = spec p) /\
+    (forall p, ~ In p done -> (pn p < start)%nat -> st p dflt = None) /\
+    (forall p f, fmt_eqb f dflt = false -> st p f = st0 p f).
+
+  Lemma cascade_inv : forall rest done st st',
+    order = done ++ rest -> inv done st ->
+    cascade_gen u dflt k orc st rest = Some st' -> inv order st'.
+  Proof.
+    induction rest as [|p rest IH]; intros done st st' Eo Hinv H.
+    - cbn in H. injection H as <-. rewrite app_nil_r in Eo. subst done. exact Hinv.
+    - cbn [cascade_gen] in H.
+      destruct (walk_callback_gen u dflt k orc st p) as [st1|] eqn:EW; [|discriminate].
+      apply (IH (done ++ [p]) st1 st'); [rewrite <- app_assoc; exact Eo | | exact H].
+      destruct Hinv as (I1 & I2 & I3 & I4).
+      assert (Hp : (pn p < start)%nat) by (apply order_depth; rewrite Eo; apply in_or_app; right; left; reflexivity).
+      assert (Hpn : ~ In p done).
+      { rewrite Eo in order_nodup. apply NoDup_remove_2 in order_nodup.
+        intros X. apply order_nodup. apply in_or_app; left; exact X. }
+      (* children files are the spec *)
+      assert (Hch : forall c, In c (children p) -> st c dflt = spec c).
+      { intros c Hc. pose proof (children_depth p c Hc) as Dc.
+        destruct (Nat.eq_dec (pn c) start) as [Es|Es].
+        - rewrite (spec_leaf c Es). apply I1. lia.
+        - assert (Hc' : (pn c < start)%nat) by lia.
+          destruct (in_dec pos_eq_dec c done) as [Hin|Hnin]; [apply I2; exact Hin|].
+          rewrite (I3 c Hnin Hc'). symmetry. apply not_in_order_none; [exact Hc'|].
+          intros Hco. apply Hnin. apply (order_cf done p rest c Eo Hc Hco). }
+      assert (Ecs : child_files orc dflt st p = map (fun c => option_map (decode (orc c)) (spec c)) (children p)).
+      { unfold child_files. apply map_ext_in. intros c Hc. rewrite (Hch c Hc). reflexivity. }
+      pose proof (walk_callback_effect u dflt k orc st p st1 EW) as Eff.
+      pose proof (spec_unfold p Hp) as Sp.
+      rewrite Ecs in Eff.
+      destruct (merge_tiles_gen u dflt k (map (fun c => option_map (decode (orc c)) (spec c)) (children p)))
+        as [[m|]|]; [| |contradiction].
+      + (* written (or removed) *)
+        split; [|split; [|split]].
+        * intros q Hq. rewrite Eff. rewrite pos_eqb_neq; [apply I1; exact Hq|]. intros ->. lia.
+        * intros q Hq. apply in_app_or in Hq. destruct Hq as [Hq|[<-|[]]].
+          -- rewrite Eff. rewrite pos_eqb_neq; [apply I2; exact Hq|]. intros ->. contradiction.
+          -- rewrite Eff, pos_eqb_refl. replace (fmt_eqb dflt dflt) with true by (destruct dflt; reflexivity).
+             cbn [andb]. symmetry; exact Sp.
+        * intros q Hq Hd. rewrite Eff. rewrite pos_eqb_neq.
+          -- apply I3; [|exact Hd]. intros X. apply Hq. apply in_or_app; left; exact X.
+          -- intros ->. apply Hq. apply in_or_app; right; left; reflexivity.
+        * intros q f Hf. rewrite Eff, Hf, andb_false_r. apply I4; exact Hf.
+      + (* all children absent: nothing happens *)
+        subst st1. split; [|split; [|split]].
+        * exact I1.
+        * intros q Hq. apply in_app_or in Hq. destruct Hq as [Hq|[<-|[]]]; [apply I2; exact Hq|].
+          rewrite Sp. apply I3; assumption.
+        * intros q Hq Hd. apply I3; [|exact Hd]. intros X. apply Hq. apply in_or_app; left; exact X.
+        * exact I4.
+  Qed.
+
+  Lemma cascade_spec_lemma st' :
+    cascade_gen u dflt k orc st0 order = Some st' ->
+    (forall p, (pn p < start)%nat -> st' p dflt = spec p) /\
+    (forall p, (start <= pn p)%nat -> st' p dflt = st0 p dflt) /\
+    (forall p f, fmt_eqb f dflt = false -> st' p f = st0 p f).
+  Proof.
+    intros H.
+    assert (I0 : inv [] st0).
+    { split; [|split; [|split]]; auto.
+      - intros p [].
+      - intros p _ Hp. apply upper_empty; exact Hp. }
+    destruct (cascade_inv order [] st0 st' eq_refl I0 H) as (I1 & I2 & I3 & I4).
+    split; [|split]; auto.
+    intros p Hp. destruct (in_dec pos_eq_dec p order) as [Hin|Hnin]; [apply I2; exact Hin|].
+    rewrite (I3 p Hnin Hp). symmetry. apply not_in_order_none; assumption.
+  Qed.
+End Cascade.
